@@ -1197,6 +1197,59 @@ Lemma event_names_are_classes :
   List.length event_type_names = List.length event_types_table.
 Proof. vm_compute. split; reflexivity. Qed.
 
+(* ---- the class tree realises the documented name tree: for all EventTypes
+   names a, b: class(b) is a subclass of class(a)  iff  a is above b by name *)
+Definition tree_match_b : bool :=
+  forallb (fun a => forallb (fun b =>
+    match class_of_name a, class_of_name b with
+    | Some ca, Some cb => Bool.eqb (subtype_b cb ca) (name_super a b)
+    | _, _ => false
+    end) event_type_names) event_type_names.
+Lemma class_tree_matches_names : tree_match_b = true.
+Proof. vm_compute. reflexivity. Qed.
+
+Lemma tree_match a b : In a event_type_names -> In b event_type_names ->
+  exists ca cb, class_of_name a = Some ca /\ class_of_name b = Some cb /\ subtype_b cb ca = name_super a b.
+Proof.
+  intros A B. pose proof class_tree_matches_names as H. unfold tree_match_b in H.
+  rewrite forallb_forall in H. specialize (H a A). rewrite forallb_forall in H. specialize (H b B).
+  destruct (class_of_name a) as [ca|]; [|discriminate]. destruct (class_of_name b) as [cb|]; [|discriminate].
+  exists ca, cb. repeat split. apply Bool.eqb_prop; exact H.
+Qed.
+
+(* ---- documented subscription: a pool listing valid names receives one
+   notification of type n exactly once iff n or a name above it is listed *)
+Theorem subscription_by_names names n :
+  Forall (fun l => In l event_type_names) names -> In n event_type_names ->
+  exists cn, class_of_name n = Some cn /\
+             deliveries (somes (map class_of_name names)) cn = doc_deliveries names n.
+Proof.
+  intros F N. destruct (tree_match n n N N) as (cn & _ & Cn & _ & _). exists cn. split; [exact Cn|].
+  rewrite subscription_routing. unfold doc_deliveries.
+  replace (existsb (fun T => subtype_b cn T) (somes (map class_of_name names)))
+    with (existsb (fun l => name_super l n) names); [reflexivity|].
+  induction F as [|l r Hl F IH]; simpl; [reflexivity|].
+  destruct (tree_match l n Hl N) as (cl & cn' & Cl & Cn' & E). rewrite Cn in Cn'. inversion Cn'; subst cn'.
+  rewrite Cl. simpl. rewrite E, IH. reflexivity.
+Qed.
+
+(* ---- boolean spellings: exactly true/false yes/no on/off 1/0 in any case *)
+Definition documented_truthy : list string := ["true"; "yes"; "on"; "1"; "TRUE"; "Yes"; "oN"; "True"].
+Definition documented_falsy : list string := ["false"; "no"; "off"; "0"; "FALSE"; "No"; "oFF"; "Off"].
+Definition not_booleans : list string :=
+  ["off0"; "of"; "tru"; "2"; "y"; "n"; "t"; "f"; "none"; ""; "01"; "10"; "yes0"; "onoff"; "truefalse"; "-1"; "o"; "0ff"].
+Definition is_ok_bool (b : bool) (s : string) : bool :=
+  match conv_boolean (GStr s) with Ok x => Bool.eqb x b | Err _ => false end.
+Definition is_ok_ar (a : autorestart) (s : string) : bool :=
+  match conv_autorestart (GStr s) with Ok x => Defaults.ar_eqb x a | Err _ => false end.
+Lemma boolean_spellings :
+  forallb (is_ok_bool true) documented_truthy = true /\ forallb (is_ok_bool false) documented_falsy = true /\
+  forallb (fun s => match conv_boolean (GStr s) with Err EBool => true | _ => false end) not_booleans = true /\
+  forallb (is_ok_ar ARAlways) documented_truthy = true /\ forallb (is_ok_ar ARNever) documented_falsy = true /\
+  forallb (is_ok_ar ARUnexpected) ["unexpected"; "UNEXPECTED"; "Unexpected"] = true /\
+  forallb (fun s => match conv_autorestart (GStr s) with Err EAutorestart => true | _ => false end) not_booleans = true.
+Proof. repeat split; vm_compute; reflexivity. Qed.
+
 Example ex_subscription :
   map (fun t => deliveries (pool_classes "PROCESS_STATE_RUNNING, process_state,TICK_5,TICK_5") t)
       [T_ProcessStateStoppedEvent; T_ProcessStateRunningEvent; T_ProcessStateEvent; T_Tick5Event; T_Tick60Event; T_Event]
